@@ -159,7 +159,9 @@ EXTRA = {
            "sized3/sized5): a PUBLISH with an incomplete payload is flagged whatever piece came with the header.",
     "C12": " The limiter's view of decoded items (what wf_stream assumes) is tied to the codec by engines sized3/sized5; "
            "the client role of the receive maximum is covered by the cli5 cases.",
-    "C13": " Where the flag comes from: io.rs announces back-pressure off once the buffer is flushed and the service is "
+    "C13": " The ControlService wrapper (engines ctlwrap3/ctlwrap5, Model/CtlWrap.v, Props/C13ctl.v): the flag is the "
+           "last notification ISSUED, whatever the order in which the application's control calls complete."
+           " Where the flag comes from: io.rs announces back-pressure off once the buffer is flushed and the service is "
            "ready (iostate back-pressure parts, clause 133); streamed chunk sends resume (clause 132).",
     "C15": " Busy endpoints: the DISCONNECT the sink layer writes for a rule-breaking acknowledgement carries 0x83 "
            "(wire log of Model/Sink.v carries the reason, clause 151); client role covered by scan P12.",
